@@ -28,7 +28,7 @@ Qed.
 
 (* phase 1 of a call without a source list and with well-formed 1-D arrays *)
 Lemma ids_len_np i : ids_len (znp1 i) = Ok (length i).
-Proof. unfold ids_len, znp1. cbn. destruct (length i); reflexivity. Qed.
+Proof. unfold ids_len, znp1. cbn [z_shape z_badtype]. destruct (length i); reflexivity. Qed.
 Lemma nums_len_np n known : nums_len (znp1 n) known = if check_1d [length n] known then Ok (length n) else Err EType.
 Proof. unfold nums_len, znp1. cbn [z_shape]. destruct (length n); reflexivity. Qed.
 Lemma if_len0 (zs : list Z) : (if (length zs =? 0)%nat then [] else zs) = zs.
@@ -252,7 +252,7 @@ Theorem bad_shapes_rejected_l env src a l :
   (forall x, c_scores a = SArr x -> a_shape x = [len l]) /\
   (forall x, c_scores a = SNone -> lookup F_SCORE (eff_fields src a) = Some (FArr x) -> a_shape x = [len l]) /\
   (forall x, lookup F_RANK (c_fields a) = Some (FArr x) -> c_ordered a <> Some false -> a_shape x = [len l]) /\
-  (forall z, c_ids a = Some z -> z_badtype z = false /\ (z_shape z = [len l] \/ (len l = 0%nat /\ exists r, z_shape z = 0%nat :: r))) /\
+  (forall z, c_ids a = Some z -> (z_badtype z = false /\ z_shape z = [len l]) \/ (len l = 0%nat /\ exists r, z_shape z = 0%nat :: r)) /\
   (forall z, c_nums a = Some z -> z_shape z = [len l] \/ (len l = 0%nat /\ exists r, z_shape z = 0%nat :: r)).
 Proof.
   unfold construct.
@@ -280,11 +280,12 @@ Proof.
   revert P1. unfold phase1, ids_step, nums_step.
   destruct (c_ids a) as [zi|] eqn:CI.
   - destruct (ids_len zi) as [ni|] eqn:LI; cbn [bind]; [|discriminate].
-    assert (SI : z_badtype zi = false /\ (z_shape zi = [ni] \/ (ni = 0%nat /\ exists r, z_shape zi = 0%nat :: r))).
-    { revert LI. unfold ids_len. destruct (z_badtype zi); [discriminate|]. split; [reflexivity|].
-      destruct (z_shape zi) as [|m [|m2 r]]; cbn beta iota in *; [discriminate| |].
-      - destruct m; injection LI as <-; left; reflexivity.
-      - destruct m; [|discriminate]. injection LI as <-. right. split; [reflexivity|]. eexists. reflexivity. }
+    assert (SI : (z_badtype zi = false /\ z_shape zi = [ni]) \/ (ni = 0%nat /\ exists r, z_shape zi = 0%nat :: r)).
+    { revert LI. unfold ids_len.
+      destruct (z_shape zi) as [|m r]; cbn beta iota; [discriminate|].
+      destruct m as [|m']; cbn beta iota.
+      - intro E. injection E as <-. right. split; [reflexivity|]. eexists. reflexivity.
+      - destruct r; [|discriminate]. destruct (z_badtype zi); [discriminate|]. intro E. injection E as <-. left. split; reflexivity. }
     destruct (c_nums a) as [zn|] eqn:CN.
     + cbn [fst snd]. destruct (nums_len zn (Some ni)) as [nn|] eqn:LN; cbn [bind]; [|discriminate].
       cbn [bind fst snd]. destruct (vocab_step env src a _ _); cbn [bind]; [|discriminate]. intro E. injection E as <-. cbn [k_len snd].
